@@ -507,13 +507,16 @@ inline void ops_binary(Rep& R, Op& op, const Z& P, const Z& a, const Z& b) {
   { E t = ea; op.multiply_inplace(t, eb); got = toZ<Z>(t); C10_CHECKV(R, Z, K_INPLACE, got == prd, "mul", &a, &b, C10_NIL(Z), &got, &prd, "multiply_inplace", nullptr, "lhs", oa, "rhs", ob); }
   C10_CHECKV(R, Z, K_CMP, op.are_equal(ea, eb) == (ra == rb), "compare", &a, &b, C10_NIL(Z), C10_NIL(Z), C10_NIL(Z), "are_equal_pair", nullptr, "lhs", oa, "rhs", ob);
 }
-// fused operations; word_limit > 0: skip triples whose exact intermediate value exceeds it (documented "not overflow safe")
+// fused operations; word_limit > 0: UNREDUCED triples whose exact intermediate value exceeds it are skipped (the methods are
+// documented "not overflow safe" and the property only quantifies over reduced operands); REDUCED triples are always judged:
+// the property demands the exact result for every characteristic the class accepts.
 template <class Op, class E, class Z>
 inline void ops_fused(Rep& R, Op& op, const Z& P, const Z& a, const Z& b, const Z& c, const Z& word_limit) {
   const Z ma = a * b + c, am = (a + b) * c, apb = a + b;
   const char* cl = (a < P && b < P && c < P && a >= 0 && b >= 0 && c >= 0) ? "reduced" : "unreduced";
   Z got;
-  if (word_limit > 0 && (ma > word_limit || ma < 0)) ++R.n[K_SKIP_FUSED_OVERFLOW];
+  const bool reduced_operands = (a < P && b < P && c < P && a >= 0 && b >= 0 && c >= 0);
+  if (word_limit > 0 && !reduced_operands && (ma > word_limit || ma < 0)) ++R.n[K_SKIP_FUSED_OVERFLOW];
   else {
     const Z want = pmod(ma, P);
     if (ma >= (toZ<Z>((unsigned long)1) << 31)) ++R.n[S_FUSED_NEAR_WORD];
@@ -523,7 +526,7 @@ inline void ops_fused(Rep& R, Op& op, const Z& P, const Z& a, const Z& b, const 
     { E t = ea; op.multiply_and_add_inplace_front(t, eb, ec); got = toZ<Z>(t); C10_CHECKV(R, Z, K_FUSED_MUL_ADD, got == want, "fused.multiply_and_add", &a, &b, &c, &got, &want, "inplace_front", nullptr, "operands", cl); }
     { E t = ec; op.multiply_and_add_inplace_back(ea, eb, t); got = toZ<Z>(t); C10_CHECKV(R, Z, K_FUSED_MUL_ADD, got == want, "fused.multiply_and_add", &a, &b, &c, &got, &want, "inplace_back", nullptr, "operands", cl); }
   }
-  if (word_limit > 0 && (am > word_limit || am < 0 || apb > word_limit)) ++R.n[K_SKIP_FUSED_OVERFLOW];
+  if (word_limit > 0 && !reduced_operands && (am > word_limit || am < 0 || apb > word_limit)) ++R.n[K_SKIP_FUSED_OVERFLOW];
   else {
     const Z want = pmod(am, P);
     E ea = mkE<Z, E>(a); const E eb = mkE<Z, E>(b), ec = mkE<Z, E>(c);
